@@ -18,7 +18,10 @@
 (*   "packages"  a cached parser whose default list collects every         *)
 (*               add-package seen (sourcepath leaks into later parses);    *)
 (*   "format"    the composite parser remembering which format parsed the  *)
-(*               last file and trying it first on the next one.            *)
+(*               last file and trying it first on the next one;            *)
+(*   "defaults"  one ConfigParser object reused and clear()ed: the         *)
+(*               [DEFAULT] section of an INI file survives and supplies    *)
+(*               values to every later INI file.                           *)
 (*                                                                         *)
 (* Every history up to MaxLen is a state; each is printed and executed by  *)
 (* harness/checks/c20.py in a forked child process (so that histories do   *)
@@ -29,7 +32,7 @@ EXTENDS Naturals, Sequences, FiniteSets, TLC, Json
 
 CONSTANTS Inputs,   \* subset of the names below
           MaxLen,
-          Memory    \* "none" (the code) | "packages" | "format"
+          Memory    \* "none" (the code) | "packages" | "format" | "defaults"
 
 \* what one input says, on its own
 Pkgs(i) == CASE i \in {"pkgToml", "pkgCli"} -> <<"dir1">>
@@ -37,32 +40,37 @@ Pkgs(i) == CASE i \in {"pkgToml", "pkgCli"} -> <<"dir1">>
              [] OTHER -> <<>>
 Positional(i) == i = "srcPos"                       \* a SOURCEPATH argument on the command line
 Name(i) == CASE i = "nameCfg" -> "FromCfg"
+             [] i = "defaultCfg" -> "FromDefault"    \* [DEFAULT] project-name = ... applies to the sections of ITS file (INI)
              [] i = "nameTomlComment" -> "Demo"      \* project-name = "Demo"  # comment   (TOML; as INI the comment is text)
              [] OTHER -> "-"
-Format(i) == CASE i \in {"pkgCfg", "nameCfg", "privIni"} -> "ini"
+Format(i) == CASE i \in {"pkgCfg", "nameCfg", "privIni", "defaultCfg"} -> "ini"
                [] i \in {"pkgToml", "nameTomlComment", "verboseToml"} -> "toml"
                [] OTHER -> "-"                       \* no file
 
 VARIABLES hist, mem, out
 vars == <<hist, mem, out>>
 
-Init == hist = <<>> /\ out = <<>> /\ mem = [pkgs |-> <<>>, fmt |-> "-"]
+NoMem == [pkgs |-> <<>>, fmt |-> "-", dflt |-> "-"]
+Init == hist = <<>> /\ out = <<>> /\ mem = NoMem
 
 Parse(i) ==
   LET pk == (IF Memory = "packages" THEN mem.pkgs ELSE <<>>) \o Pkgs(i)
-      nm == IF Memory = "format" /\ mem.fmt = "ini" /\ i = "nameTomlComment" THEN "Demo+comment" ELSE Name(i)
+      nm == IF Memory = "format" /\ mem.fmt = "ini" /\ i = "nameTomlComment" THEN "Demo+comment"
+            ELSE IF Memory = "defaults" /\ Format(i) = "ini" /\ Name(i) = "-" THEN mem.dflt
+            ELSE Name(i)
   IN /\ Len(hist) < MaxLen
      /\ hist' = Append(hist, i)
      /\ out' = Append(out, [i |-> i, pkgs |-> pk, name |-> nm])
      /\ mem' = [pkgs |-> IF Memory = "packages" /\ ~Positional(i) THEN pk ELSE mem.pkgs,
-                fmt  |-> IF Memory = "format" /\ Format(i) # "-" THEN Format(i) ELSE mem.fmt]
+                fmt  |-> IF Memory = "format" /\ Format(i) # "-" THEN Format(i) ELSE mem.fmt,
+                dflt |-> IF Memory = "defaults" /\ i = "defaultCfg" THEN "FromDefault" ELSE mem.dflt]
 Next == \E i \in Inputs : Parse(i)
 Spec == Init /\ [][Next]_vars
 
 \* the property: every parse gives what its own inputs say
 Independent == \A k \in 1..Len(out) : out[k].pkgs = Pkgs(out[k].i) /\ out[k].name = Name(out[k].i)
 \* the code keeps nothing
-NoMemory == Memory = "none" => mem = [pkgs |-> <<>>, fmt |-> "-"]
+NoMemory == Memory = "none" => mem = NoMem
 
 Emit == hist # <<>> => PrintT(ToJson([hist |-> hist, out |-> out]))
 =============================================================================
